@@ -168,7 +168,7 @@ def discover(app, prefix, wsgi):
             for st in listing:
                 rt = mweb.prop_el(st, RT)
                 if rt is not None and any(ch.tag == want_type for ch in rt):
-                    p = _deref(app, Wd.create_href(st.href).text, prefix)
+                    p = _deref(app, mweb.emitted_href(st), prefix)
                     if p is None:
                         return None
                     out.append(p)
@@ -180,6 +180,22 @@ SEGMENU = ["a", "u s", "é", "user", "b.c", "a+b", "x#y"]
 
 
 def body_discovery(i1, i2, nseg, slash, restarts, bare_existing=False):
+    """(every input is an index into a finite menu: the solver branches on each, the chain itself then runs on
+    concrete values outside the tracer, so each part is covered exhaustively)"""
+    from xv.core import pick
+    i1, i2, nseg = pick(i1, len(SEGMENU)), pick(i2, len(SEGMENU)), pick(nseg, 3)
+    restarts = pick(restarts, ctx.b.restarts + 1)
+    slash, bare_existing = (True if slash else False), (True if bare_existing else False)
+    try:
+        from crosshair.tracers import NoTracing
+    except ImportError:
+        import contextlib
+        NoTracing = contextlib.nullcontext
+    with NoTracing():
+        return _discovery(i1, i2, nseg, slash, restarts, bare_existing)
+
+
+def _discovery(i1, i2, nseg, slash, restarts, bare_existing=False):
     prefix, wsgi, mode = ctx.PART  # mode: "defaults" | "autocreate" | "wsgi-defaults" (xandikos/wsgi.py start-up)
     wsgi_module = mode.startswith("wsgi-")
     if wsgi_module:
